@@ -378,8 +378,9 @@ def _n1_prologue(f: Func, res: RuleResult):
                 n_loops += 1
                 construct = f"{norm(st.iter)} [{case}]"
                 it = st.iter
+                from .canon import subst_single_defs as _ssd      # `n = len(arr)` hoisted in front of the loops
                 ok_shape = (isinstance(it, ast.Call) and norm(it.func) == "range" and len(it.args) == 2
-                            and sym(it.args[1], {}) == f"len({arr})" and isinstance(st.target, ast.Name))
+                            and sym(_ssd(f, it.args[1]), {}) == f"len({arr})" and isinstance(st.target, ast.Name))
                 if not ok_shape:
                     res.bad(f, st, construct, "the reducing loop is not 'for j in range(start, len(arr))'")
                     continue
